@@ -24,6 +24,8 @@ def run(ctx):
     ctx.add_tlc(res, f"Gen_Tantivy: {len(cases)} (model, wsconst) pairs x {len(cases[0]['runs'])} texts; tiling laws hold for the expected streams")
     send = []
     for i, c in enumerate(cases):
+        # the empty text once more at the end: a tokenizer that was already used must still yield no token for it
+        c["runs"].append({"text": [], "tokens": []})
         send.append({"id": i, "kind": "tantivy", "model": c["model"], "wsconst": "".join(c["wsconst"]),
                      "texts": [r["text"] for r in c["runs"]]})
     obs = vlib.run_replay(binp, send, "C16-tantivy")
@@ -39,10 +41,10 @@ def run(ctx):
             ctx.evaluations += 1
             if len(r["tokens"]) >= 2:
                 ctx.nontriv(("tv", d["id"], tuple(r["text"])))
-            if ro["tokens"] != r["tokens"]:
+            if ro["tokens"] != r["tokens"] or ro.get("tokens_deserialized") != r["tokens"]:
                 bad += 1
                 ctx.violation(f"C16:tantivy:model{c['model']['bias']}:ws={d['wsconst']}:text={r['text']}",
-                              f"token stream for text {r['text']} wsconst '{d['wsconst']}': expected {r['tokens']} observed {str(ro['tokens'])[:300]}",
+                              f"token stream for text {r['text']} wsconst '{d['wsconst']}': expected {r['tokens']} observed {str(ro['tokens'])[:300]}; from the deserialised tokenizer {str(ro.get('tokens_deserialized'))[:300]}",
                               {"kind": "tantivy", "case": dict(d, texts=[r["text"]]), "expect": [r["tokens"]]}, cls="C16:tantivy:stream")
     ctx.add_part(replayed="tantivy cases", pairs=len(cases), failing_texts=bad)
     ctx.sample({"wsconst": send[-1]["wsconst"], "text": cases[-1]["runs"][-1]["text"], "expected_tokens": cases[-1]["runs"][-1]["tokens"]})
@@ -68,10 +70,9 @@ def run(ctx):
         if part[0] is not table:
             part = [table] + part
         r, noted = vlib.validate_trace(ctx, f"C16-trace-{ci // chunk}", "Trace_C16", part, chunk=chunk + 1,
-                                       invariant="Check\nINVARIANT BaselineNote")
+                                       invariant="Check")
         rej += r
-        if noted and ci == 0:
-            ctx.add_part(information="the observed normaliser table differs from the baseline table of VpNormalise (not a violation)")
+        _ = noted
     byid = {e["id"]: e for e in events}
     for rid in sorted(set(rej)):
         e = byid[rid]
